@@ -271,6 +271,50 @@ def run(chk, facts):
             # recursion that follows names through a table: needs the acyclicity validation
             prot = _acyclic_validation(mir)
             same_key, key_why = _acyclic_same_key(mir)
+            if not any(o["key"] == "R-C03-2|acyclic-guard:covers-final-table" for o in chk.obligations):
+                final_ok, final_why = _acyclic_final(mir)
+                chk.ob("R-C03-2", "acyclic-guard:covers-final-table", final_ok, f"acyclicity validation: {final_why}" if final_ok else
+                       f"acyclicity validation: {final_why} - a cycle that only exists in the table as it is used (user classes merged with the bundled ones) is not reported and the "
+                       "class lookup recurses until the stack overflows")
+            if not any(o["key"] == "R-C03-2|acyclic-guard:no-type-parameter-parent" for o in chk.obligations):
+                # a parent that is a type parameter becomes whatever it is substituted with - also the class itself (`class A[T]: T`, `class B: A[B]`):
+                # the name-level walk cannot see that cycle, so such a parent has to be rejected outright
+                try:
+                    from .common import inline_lets, fn_paths
+                    cia = facts.syn.one_fn("check_inheritance_acyclic", mod="check::context")
+                    okp = False
+                    # what an Err-returning condition depends on: its own text plus, transitively, the initialisers of the locals it names
+                    inits = {}
+                    for n in walk(cia["body"]):
+                        if n.get("k") == "local" and n.get("init") is not None:
+                            for p_ in walk(n["pat"]):
+                                if p_.get("k") == "pident":
+                                    inits.setdefault(p_["name"], []).append(src(n["init"], -30))
+
+                    def closure_text(text):
+                        seen_, todo, out_ = set(), [text], text
+                        while todo:
+                            t_ = todo.pop()
+                            for nm in set(re.findall(r"[A-Za-z_]\w*", t_)):
+                                if nm in inits and nm not in seen_:
+                                    seen_.add(nm)
+                                    for it_ in inits[nm]:
+                                        out_ += " " + it_
+                                        todo.append(it_)
+                        return out_
+                    for p_ in fn_paths(cia["body"]):
+                        r_ = src(strip(p_.result), -30).replace(" ", "") if p_.result is not None else ""
+                        if not r_.startswith("Err("):
+                            continue
+                        cs = closure_text(" ".join(c for c, pol in p_.conds if pol))
+                        if ".parents" in cs and ".generics" in cs:
+                            okp = True
+                    chk.ob("R-C03-2", "acyclic-guard:no-type-parameter-parent", okp,
+                           "acyclicity validation: a class that inherits from one of its own type parameters is rejected" if okp else
+                           "acyclicity validation: a class may inherit from its own type parameter (`class A[T]: T`): with `class B: A[B]` the class lookup, which substitutes "
+                           "the parameter, finds B among its own ancestors and recurses until the stack overflows - the name-level cycle walk cannot see it", facts.loc_of(cia))
+                except AnchorError as e_:
+                    chk.anchor_fail("R-C03-2", e_)
             if not any(o["key"] == "R-C03-2|acyclic-guard:same-key-as-lookup" for o in chk.obligations):
               chk.ob("R-C03-2", "acyclic-guard:same-key-as-lookup", same_key, f"acyclicity validation: {key_why}" if same_key else
                      f"acyclicity validation: {key_why} - a cycle among such classes is not reported and the class lookup recurses until the stack overflows")
@@ -349,7 +393,7 @@ def run(chk, facts):
                    f"{owner}: every path around the `{t.callee.split('::')[-1]}`-driven loop consumes from `{_root_str(driver)}` ({len(consuming)} consuming block(s))" if path_back is None else
                    f"{owner}: the loop tests `{_root_str(driver)}.{t.callee.split('::')[-1]}()` without consuming, and there is a path back to the test that consumes nothing "
                    f"from that iterator (a look-ahead on a clone does not count): the same character is looked at for ever", f"{b.file}:{line}")
-    chk.floor("R-C03-3", n_peek, 5, "loops driven by a non-consuming test")
+    chk.floor("R-C03-3", n_peek, 3, "loops driven by a non-consuming test")
     chk.ob("R-C03-3", "loops", True, f"{n_loops} natural loops examined")
     chk.floor("R-C03-3", n_loops, 60, "natural loops")
     _callbacks(chk, facts)
@@ -442,6 +486,33 @@ def _acyclic_same_key(mir):
     return True, f"guard and lookup both compare bare names ({len(guard)} + {len(lookup)} comparisons)"
 
 
+def _acyclic_final(mir):
+    """what is validated is the table that is returned: between the validation and the Ok return of Context::try_from nothing is called
+    that could add or replace classes (only the plumbing of `?`, moves and drops)"""
+    cands = [b for b in mir.fns.values() if b.kind != "Closure" and "check::context::Context as std::convert::TryFrom<&[parse::ast::AST]>" in b.path]
+    if len(cands) != 1:
+        return False, "Context::try_from not found"
+    b = cands[0]
+    checks = [bb.idx for bb, t in b.calls() if t.callee.endswith("::check_inheritance_acyclic")]
+    if not checks:
+        return False, "no call of check_inheritance_acyclic"
+    errs = b.error_exit_blocks()
+    HARMLESS = re.compile(r"(ops::Try>::branch|FromResidual<.*>>::from_residual|::drop$|drop_in_place|::clone$|::deref$|::as_ref$|::borrow$|Result::<.*>::Ok)")
+    seen, stack, after = set(), [s_ for c in checks for s_ in b.succs(c)], []
+    while stack:
+        x = stack.pop()
+        if x in seen or x in errs or b.bbs[x].cleanup:
+            continue
+        seen.add(x)
+        t = b.bbs[x].term
+        if t.k == "call" and not HARMLESS.search(t.callee) and x not in checks:
+            after.append(t.callee)
+        stack.extend(b.succs(x))
+    if after:
+        return False, f"after the validation the context still goes through `{after[0].split('<')[0][-60:]}`" + (f" (+{len(after) - 1} more)" if len(after) > 1 else "")
+    return True, "nothing changes the class table between the validation and the Ok return"
+
+
 def _acyclic_validation(mir):
     """Context::try_from must-calls check_inheritance_acyclic on every Ok path"""
     cands = [b for b in mir.fns.values() if b.kind != "Closure" and "check::context::Context as std::convert::TryFrom<&[parse::ast::AST]>" in b.path]
@@ -525,6 +596,31 @@ def _invariants(chk, facts):
         chk.ob("R-C03-1", "inv:union-never-on-invisible", not bad_callers,
                "Position::union is never applied to an invisible position" if not bad_callers else
                f"{sorted(set(bad_callers))} apply Position::union to an invisible position: the result has a zero start but is not invisible(), and rendering it underflows")
+    except AnchorError as e:
+        chk.anchor_fail("R-C03-1", e)
+    # I4: the generator panics when the Python form of a class or parent name is not a type (`class name should be type`, `Expected type in
+    # parent`): StringName::to_py must yield a type for every name - each arm builds core_type(..), or hands a *non-empty* list of members on
+    # (a bare `Union`, the name of a user class, must not be taken for the union type constructor: its union is empty and renders as nothing)
+    try:
+        tp = [f for f in syn.fns if f["name"] == "to_py" and f["mod"] == "generate::name" and "StringName" in (f.get("impl_of") or "")]
+        if len(tp) != 1:
+            raise AnchorError(f"{len(tp)} StringName::to_py")
+        ms = [n for n in walk(tp[0]["body"]) if n.get("k") == "match" and "self.name" in src(n["e"], -30)]
+        if len(ms) != 1:
+            raise AnchorError("StringName::to_py is no longer a match on the name")
+        bad_arms = []
+        for a in ms[0]["arms"]:
+            t_ = tail_expr(a["body"]) if strip(a["body"]).get("k") == "block" else a["body"]
+            t_ = strip(t_) if t_ else {}
+            builds_type = t_.get("k") == "call" and src(t_["f"]).split("::")[-1] == "core_type"
+            guard = src(a["guard"], -30).replace(" ", "") if a.get("guard") else ""
+            nonempty = "!self.generics.is_empty()" in guard or "self.generics.len()>0" in guard or "self.generics.len()>=1" in guard
+            if not builds_type and not nonempty:
+                bad_arms.append(src(a["pat"]))
+        chk.ob("R-C03-1", "inv:StringName::to_py-yields-a-type", not bad_arms,
+               "StringName::to_py builds a type for every name (core_type, or members handed on only when there are some)" if not bad_arms else
+               f"StringName::to_py: the arm(s) {bad_arms} can yield something that is not a type (an empty union renders as nothing): `class Union` / `class A: Union` "
+               "reach the panics `class name should be type` / `Expected type in parent` in generate::convert::class", facts.loc_of(tp[0]))
     except AnchorError as e:
         chk.anchor_fail("R-C03-1", e)
 
